@@ -259,17 +259,34 @@ def run_case(ctx, opts):
     mode = r.choice(MODES)
     salt = r.getrandbits(32)
     streams = gen_streams(r, topo, mode, ctx.tier)
+    # "abort while a hook is pending" scenario (about 6 % of all cases): stream A's request body is streamed upstream, the origin
+    # answers early, one of A's response hooks is held, and while it is pending either the client's RST_STREAM for A is delivered
+    # or (variant kill) the addon kills the flow in that hook with the rest of A's body still to come; the origin allows ONE
+    # concurrent stream and the other streams arrive behind A.  If the upstream stream of A is not aborted they are never opened.
+    scen = None
+    if topo == "h2h2" and r.random() < 0.1:
+        while len(streams) < 3:
+            streams = gen_streams(r, topo, mode, ctx.tier)
+        streams = streams[: r.choice([3, 4, 5])]
+        scen = {"variant": r.choice(["rst", "rst", "kill"]), "hook": r.choice(["responseheaders", "response"]), "held": None, "killed": False, "tag": streams[0]["tag"]}
+        for s in streams:
+            s["host"], s["stream_req"] = HOSTS[0], False
+        a = streams[0]
+        a.update(stream_req=True, method=b"POST", chunks=[a["tag"] + b":%d;" % i for i in range(3)], end_mode="data", trailers=None)
     by_tag = {s["tag"]: s for s in streams}
     all_tags = set(by_tag)
-    early = topo == "h2h2" and r.random() < 0.1
+    early = scen is not None or (topo == "h2h2" and r.random() < 0.1)
     plans = {t: origin_plan(salt, t, topo, early) for t in all_tags}
+    if scen is not None:
+        for pl in plans.values():
+            pl["rst"] = None
     full_body = {s["tag"]: b"".join(s["chunks"]) for s in streams}
 
     # client resets (h2 client only)
     per_stream = []
     for s in streams:
         acts = stream_actions(s, topo)
-        if topo != "h1h2" and r.random() < 0.15:
+        if topo != "h1h2" and scen is None and r.random() < 0.15:
             s["rst_at"] = r.randint(1, len(acts))
             acts = acts[: s["rst_at"]] + [("rst", s["key"], r.choice([8, 8, 2, 0]))]
         per_stream.append(acts)
@@ -287,6 +304,8 @@ def run_case(ctx, opts):
     # INITIAL_WINDOW_SIZE below what is already in flight the library's receiver refuses even the empty END_STREAM frame
     # RFC 9113 6.9 allows at a non-positive window, which would be a false alarm of the peer.
     credit = r.choice(["eager", "eager", "manager"])
+    if scen is not None:
+        init_limit, limit_plan, srv_window, cli_window, credit = 1, [], None, None, "eager"
     srv_credit = credit if srv_window is None else "eager"
     cli_credit = credit if cli_window is None else "eager"
 
@@ -362,6 +381,23 @@ def run_case(ctx, opts):
             return None
         born = next((p.born for p in drv.pending if p.cmd is hook), drv.step_no)
         hook_spans.append((s["tag"], hook.name, born, drv.step_no))  # the flow's layer is paused from `born` until this step
+        if scen is not None and s["tag"] == scen["tag"] and hook.name == scen["hook"] and scen["held"] is None and not scen["killed"]:
+            if scen["variant"] == "kill":
+                scen["killed"] = True
+                if f.killable:
+                    f.kill()
+                return None
+            pend = next(p for p in drv.pending if p.cmd is hook)
+            scen["held"] = pend
+
+            def release(dr, pend=pend, tag=s["tag"], name=hook.name, born=born):
+                dr.release(pend)
+                hook_spans.append((tag, name, born, dr.step_no + 1))
+                return None
+
+            # released once the segment carrying the client's RST_STREAM for A has been delivered to the proxy
+            drv.injected.append(("release-held-hook", release, lambda dr, key=s["key"]: client_rst_delivery_step(dr, cpeer, key) is not None))
+            return "hold"
         if hook.name == "requestheaders" and s["stream_req"]:
             f.request.stream = True
         elif hook.name == "responseheaders" and s["stream_resp"] and f.response is not None:
@@ -413,9 +449,26 @@ def run_case(ctx, opts):
         style = "pipeline"
     else:
         client.alpn = b"h2"
-        script, style = interleave(r, per_stream)
+        if scen is not None:
+            a = streams[0]
+            acts_a = stream_actions(a, topo)
+            if scen["variant"] == "rst":
+                a["rst_at"] = 2
+                second = [("rst", a["key"], 8)]
+            else:
+                a["rst_at"] = -1  # disturbed by the addon's kill: treated like a client reset by the monitors
+                second = acts_a[2:]
+            rest, style = interleave(r, per_stream[1:])
+            style = "scenario-" + scen["variant"] + "-" + scen["hook"]
+
+            def a_hook_pending(dr):
+                return (scen["held"] is not None or scen["killed"]) and bool(origin_h2) and origin_h2[0][1].settings_acked >= 1
+
+            script = acts_a[:2] + [("gate", a_hook_pending)] + second + rest
+        else:
+            script, style = interleave(r, per_stream)
         st = {SC.INITIAL_WINDOW_SIZE: cli_window} if cli_window is not None else {}
-        total = sum(len(a[2]) for a in script if a[0] == "data")
+        total = sum(len(a_[2]) for a_ in script if a_[0] == "data")
         cuts = ["whole", "random", "fine", "fine"] + (["bytes"] if total < 900 and len(streams) <= 5 else [])
         cpeer = P.H2ClientPeer(script, r, cut=r.choice(cuts), settings=st, credit=cli_credit, out_cut=r.choice(["whole", "random"]))
     d.attach_client_peer(cpeer)
@@ -434,7 +487,7 @@ def run_case(ctx, opts):
         ctx.seen("layer_exceptions", f"{e[0]}@{e[1]}")
     base = {
         "topo": topo, "mode": mode, "tags": [s["tag"] for s in streams], "interleave": style, "init_limit": init_limit, "limit_plan": limit_plan,
-        "srv_window": srv_window, "cli_window": cli_window, "early": early, "client_rst": {s["tag"].decode(): s["rst_at"] for s in streams if s["rst_at"] is not None},
+        "srv_window": srv_window, "cli_window": cli_window, "early": early, "scenario": (scen["variant"], scen["hook"]) if scen is not None else None, "client_rst": {s["tag"].decode(): s["rst_at"] for s in streams if s["rst_at"] is not None},
         "origin_rst": sorted(t.decode() for t in server_rst_tags), "hooks": d.hook_names()[:80], "exceptions": [e[:2] for e in d.exceptions],
     }
 
@@ -733,7 +786,12 @@ def run_case(ctx, opts):
         (init_limit if init_limit in (None, 1, 2, 3) else "n", tuple(v for _, v in limit_plan)),
         (min(nrst_c, 2), min(len(server_rst_tags), 2)), order_class,
         (srv_window is not None and srv_window < 100, cli_window is not None and cli_window < 100, early, any(s["stream_req"] for s in streams), any(s["stream_resp"] for s in streams)),
+        (scen["variant"], scen["hook"]) if scen is not None else None,
     )
+    if scen is not None:
+        ctx.count("scenario.abort_during_hook")
+        if scen["killed"] or (scen["held"] is not None and not scen["held"].held):
+            ctx.count("scenario.abort_during_hook.effective")  # the hook was reached and the reset/kill happened while it was pending
     ctx.seen("hook_sequences", ",".join(d.hook_names())[:300])
     sample = {"topo": topo, "mode": mode, "streams": len(streams), "interleave": style, "init_limit": init_limit, "limit_plan": limit_plan, "answered_ok": answered_ok, "forwarded": forwarded, "steps": d.step_no, "tags": [s["tag"].decode() for s in streams][:6]}
     return sig, overl and forwarded >= 1, sample
